@@ -16,9 +16,9 @@ ASSUMPTIONS = [
     "encoded key lengths are < 2^64 (the `as u64` cast of a `usize` length is lossless)",
     "kv_refines_spec assumes every stable type id is used with ONE column kind (wide or key-of-set); "
     "without it both backends share one column family between the two kinds (model and code agree on that; "
-    "recorded as known finding F16) ",
+    "recorded as known finding F19)",
     "sequential semantics: the model takes 'commit = one atomic store write' as its primitive; atomicity under a "
-    "concurrent reader is judged only by the harness's probe on the real backends (known finding F15 on Fjall)",
+    "concurrent reader is judged only by the harness's probe on the real backends (it found F18 on Fjall, fixed in /repo 2794b90)",
     "fjall 3.0.1's Database drop occasionally never returns (upstream shutdown race: Close messages sent into a "
     "bounded channel nobody reads); the harness closes databases in a helper thread with a 20 s limit and abandons "
     "the rest of such a case (counted in input_distribution.backend_close_hung_case_abandoned_*)",
